@@ -44,11 +44,12 @@ fn base(rng: &mut Rng, b: u64) -> ConnScenario {
     // sometimes there is no target, so that the localized Disconnect path runs with whatever locale the client sent
     let targets = if rng.chance(1, 3) { vec![] } else { vec![crate::services::TargetSpec { id: "t".into(), addr: "10.0.0.5:25565".into(), meta: Default::default() }] };
     let services = Services {
-        discovery: Script::always(Some(0), DiscRes::Targets(targets)),
+        // (sometimes the lookup takes a while, so that a connection can end while it is in flight)
+        discovery: Script::always(Some(*rng.pick(&[0u64, 0, 0, ms(40), secs(3)])), DiscRes::Targets(targets)),
         ..Default::default()
     };
     // odd but well-formed locales
-    client.locale = (*rng.pick(&["de_DE", "de_DE", "", "x", "日本", "en_US_POSIX_and_more", "_US", "_", "de_", "fil_ph", "日本_JP"])).to_string();
+    client.locale = (*rng.pick(&["de_DE", "de_DE", "", "x", "日本", "en_US_POSIX_and_more", "_US", "_", "de_", "fil_ph", "日本_JP", "abcdefghijklmno\u{e9}xyz", "日本語日本語日本"])).to_string();
     ConnScenario {
         seed: rng.next_u64(),
         cfg: ConnCfg { secret, expiry: None, max_frame: None, client_addr },
@@ -270,6 +271,10 @@ pub fn check(sc: &ConnScenario, out: &ConnOutcome, rep: &mut RunReport) {
         if out.pipe.reads_after_eof > 1000 {
             rep.violate("terminates_after_eof", format!("{} reads after the end of stream", out.pipe.reads_after_eof));
         }
+    }
+    // ... and leaves nothing running behind (a back-end call on a detached task goes on after the connection is gone)
+    if out.calls_in_flight_at_end > 0 {
+        rep.violate("terminates_after_eof", format!("{} back-end call(s) were still being waited for after the handler had returned ({})", out.calls_in_flight_at_end, out.result));
     }
     if out.faults.contains_key("write_broken_pipe") {
         if out.result == "Ok" || out.result == "Hung" {
